@@ -14,6 +14,7 @@ limitations under the License.
 package ttlcache
 
 import (
+	"sync"
 	"sync/atomic"
 	"time"
 
@@ -29,6 +30,9 @@ type Cache[V any] struct {
 	runningCh chan struct{}
 	stopCh    chan struct{}
 	maxTTL    int64
+	// Serializes writers: in the underlying map a Set that runs while another Set is
+	// growing the map can leave its key unreachable.
+	setLock sync.Mutex
 }
 
 // CacheOptions are options for NewCache.
@@ -96,10 +100,12 @@ func (c *Cache[V]) Set(key string, val V, ttl int64) {
 	}
 
 	exp := c.clock.Now().Add(time.Duration(ttl) * time.Second)
+	c.setLock.Lock()
 	c.m.Set(key, cacheEntry[V]{
 		val: val,
 		exp: exp,
 	})
+	c.setLock.Unlock()
 }
 
 // Delete an item from the cache
